@@ -538,8 +538,6 @@ impl Vm {
     }
 
     fn run(&mut self) -> Result<Value, Error> {
-        debug_assert!(self.modules.len() == 1);
-
         loop {
             #[cfg(feature = "verif_hooks")]
             if let Some(error) = verif::tick(self) {
